@@ -165,4 +165,17 @@ theorem not_one_operation : ¬ OneOperation := by
   have := h [mk "S" "A" "A" "p" "/api" false "" 0 [], mk "S" "B" "B" "p" "/api" false "" 0 []]
   revert this; decide
 
+/-! ### required query parameters -/
+
+/-- **the contract marks as required exactly what the Go server requires**: the OpenAPI document's
+`required: true` query parameters are the go-http `QueryParamConfig` rows with `Required: true`,
+for every RPC and every verb (both read the flag of each query annotation itself). -/
+theorem required_flags_agree (m : MethodIn) :
+    (route .openapi m).queryRequired = (route .goHttp m).queryRequired ∧ (route .goHttp m).queryRequired = m.queryRequired := ⟨rfl, rfl⟩
+
+/-- non-vacuity: an RPC whose parameters are required-first, optional-last keeps the distinction. -/
+example :
+    let m : MethodIn := { mk "S" "Find" "Find" "p" "/v1" true "/find" 1 ["tenant", "limit"] with queryRequired := ["tenant".toList] }
+    (route .openapi m).queryRequired = ["tenant".toList] ∧ (route .openapi m).queryNames = ["tenant".toList, "limit".toList] := by decide
+
 end Sebuf.C03
